@@ -43,10 +43,21 @@ func (tr *FnTrans) run() (err error) {
 		for _, l := range tr.c.Lets {
 			tr.lets[l.Name] = l.C.E
 		}
+		for _, sx := range tr.c.Stable {
+			ex, err := parseExpr(sx)
+			if err != nil {
+				panic(unsupported("stable " + sx + ": " + err.Error()))
+			}
+			v := entryEnv.eval(ex)
+			if _, ok := v.Ty.Underlying().(*types.Pointer); !ok {
+				panic(unsupported("stable " + sx + ": not a pointer to a struct"))
+			}
+			tr.stableVals = append(tr.stableVals, v)
+			tr.stableTypes = append(tr.stableTypes, v.Ty.Underlying().(*types.Pointer).Elem())
+		}
 		var reqs []string
 		for _, r := range tr.c.Requires {
-			t := entryEnv.evalBool(r.E)
-			tr.assume("true", t, "requires "+r.Src)
+			t := tr.assumeHyp(entryEnv, r.E, "true", "requires "+r.Src)
 			reqs = append(reqs, t)
 		}
 		o := tr.oblige("pre-sat", "precondition is satisfiable", "true", "true", token.NoPos)
@@ -64,6 +75,8 @@ func (tr *FnTrans) run() (err error) {
 		}
 		tr.out[b] = st
 	}
+	tr.curState, tr.curBlock = nil, nil
+	tr.frameChecks()
 	return nil
 }
 
@@ -89,7 +102,7 @@ func (tr *FnTrans) edgeCondFor(b *ssa.BasicBlock, predIdx int) string {
 
 func (tr *FnTrans) enterBlock(b *ssa.BasicBlock) *BState {
 	if b.Index == 0 {
-		st := &BState{reach: "true", heap: tr.entryHeap.child()}
+		st := &BState{reach: "true", heap: tr.entryHeap.child(), ac: "ac0"}
 		tr.in[b] = st
 		return st
 	}
@@ -116,6 +129,19 @@ func (tr *FnTrans) enterBlock(b *ssa.BasicBlock) *BState {
 	}
 	reach := tr.smt.define(fmt.Sprintf("reach_%d", b.Index), "Bool", or(conds...))
 	st := &BState{reach: reach, heap: mergeHeaps(tr.smt, heaps, conds)}
+	{
+		// allocation counter at the join: the value of the taken edge
+		acc := ""
+		for k := len(idxs) - 1; k >= 0; k-- {
+			a := tr.out[b.Preds[idxs[k]]].ac
+			if acc == "" {
+				acc = a
+			} else if a != acc {
+				acc = fmt.Sprintf("(ite %s %s %s)", conds[k], a, acc)
+			}
+		}
+		st.ac = tr.smt.define("ac", "Int", acc)
+	}
 	tr.in[b] = st
 
 	phiVal := func(phi *ssa.Phi) Val {
@@ -183,10 +209,50 @@ func (tr *FnTrans) loopHeader(h *ssa.BasicBlock, ord int, st *BState, phiVal fun
 		env := tr.envAt(h, 0, st.heap, tr.entryHeap)
 		env.override = over
 		for _, inv := range spec.Invariants {
-			tr.oblige("inv-init", fmt.Sprintf("loop %d invariant on entry: %s", ord, inv.Src), st.reach, env.evalBool(inv.E), pos)
+			tr.oblige("inv-init", fmt.Sprintf("loop %d invariant on entry: %s", ord, inv.Src), st.reach, env.evalGoal(inv.E), pos)
 		}
 	}
+	// automatic invariant of range-over-slice loops: -1 <= rangeindex < max(len, 0) or rangeindex == -1
+	type autoInv struct {
+		phi *ssa.Phi
+		n   ssa.Value
+	}
+	var autos []autoInv
+	for _, phi := range phis {
+		if phi.Comment != "rangeindex" {
+			continue
+		}
+		// pattern:  t = phi + 1 ; c = t < n ; if c
+		for _, in := range h.Instrs {
+			add, ok := in.(*ssa.BinOp)
+			if !ok || add.Op != token.ADD || add.X != phi {
+				continue
+			}
+			for _, in2 := range h.Instrs {
+				cmp, ok := in2.(*ssa.BinOp)
+				if ok && cmp.Op == token.LSS && cmp.X == add {
+					if _, defined := tr.vals[cmp.Y]; defined || isConst(cmp.Y) {
+						autos = append(autos, autoInv{phi, cmp.Y})
+					}
+				}
+			}
+		}
+	}
+	autoTerm := func(idx string, a autoInv) string {
+		n := tr.val(a.n).T
+		m1 := tr.smt.intLit(big.NewInt(-1), 64)
+		return and(tr.ivLe(m1, idx), or(tr.ivLt(idx, n), fmt.Sprintf("(= %s %s)", idx, m1)))
+	}
+	for _, a := range autos {
+		tr.oblige("inv-init", fmt.Sprintf("loop %d: range index within bounds on entry", ord), st.reach, autoTerm(entryVals[a.phi].T, a), pos)
+	}
+	tr.autoInvs[h] = func(idx string, k int) string { return autoTerm(idx, autos[k]) }
+	tr.autoPhis[h] = nil
+	for _, a := range autos {
+		tr.autoPhis[h] = append(tr.autoPhis[h], a.phi)
+	}
 	// havoc
+	preLoopHeap := st.heap
 	body := tr.loopBody[h]
 	mod, all := tr.modifiedIn(body)
 	if all {
@@ -202,23 +268,42 @@ func (tr *FnTrans) loopHeader(h *ssa.BasicBlock, ord int, st *BState, phiVal fun
 			st.heap.set(k, tr.smt.fresh("Hloop_"+heapKey(k), st.heap.arraySort(k)))
 		}
 	}
+	tr.assumeStable(st, preLoopHeap, st.heap)
+	{
+		nac := tr.smt.fresh("ac_loop", "Int")
+		tr.assume(st.reach, fmt.Sprintf("(>= %s %s)", nac, st.ac), "allocation counter only grows")
+		st.ac = nac
+	}
+	tr.curState = st
 	over2 := map[string]Val{}
 	for _, phi := range phis {
 		v := tr.introduce("lp_"+phi.Name()+"_"+phi.Comment, phi.Type(), st.reach, "loop-havoc")
 		tr.vals[phi] = v
+		if isInteger(phi.Type()) {
+			tr.idxCands = append(tr.idxCands, v)
+		}
 		if phi.Comment != "" {
 			over2[phi.Comment] = v
 		}
 	}
+	for k, a := range autos {
+		tr.assume(st.reach, autoTerm(tr.vals[a.phi].T, autos[k]), fmt.Sprintf("loop %d range index bounds", ord))
+	}
 	kind := "true"
+	if len(autos) > 0 {
+		kind = "range-bounds"
+	}
 	if spec != nil && len(spec.Invariants) > 0 {
 		kind = "invariant"
-		env := tr.envAt(h, len(phis), st.heap, tr.entryHeap)
+		frozen := st.heap
+		st.heap = st.heap.child()
+		env := tr.envAt(h, len(phis), frozen, tr.entryHeap)
 		env.override = over2
 		for _, inv := range spec.Invariants {
-			tr.assume(st.reach, env.evalBool(inv.E), fmt.Sprintf("loop %d invariant", ord))
+			tr.assumeHyp(env, inv.E, st.reach, fmt.Sprintf("loop %d invariant", ord))
 		}
 	}
+	tr.reinstantiate()
 	tr.loopInfo[ord] = kind
 }
 
@@ -226,6 +311,11 @@ func (tr *FnTrans) loopHeader(h *ssa.BasicBlock, ord int, st *BState, phiVal fun
 func (tr *FnTrans) modifiedIn(blocks []*ssa.BasicBlock) (map[string]bool, bool) {
 	mod := map[string]bool{}
 	all := false
+	tr.curLoopBlocks = map[*ssa.BasicBlock]bool{}
+	for _, b := range blocks {
+		tr.curLoopBlocks[b] = true
+	}
+	defer func() { tr.curLoopBlocks = nil }()
 	for _, b := range blocks {
 		for _, in := range b.Instrs {
 			switch x := in.(type) {
@@ -252,8 +342,7 @@ func (tr *FnTrans) instr(st *BState, in ssa.Instruction) {
 	case *ssa.Phi:
 		// handled on block entry
 	case *ssa.Alloc:
-		tr.allocID++
-		addr := fmt.Sprintf("(loc %d)", tr.allocID)
+		addr := tr.newLoc(x.Block())
 		et := x.Type().Underlying().(*types.Pointer).Elem()
 		if at, ok := et.Underlying().(*types.Array); ok && at.Len() > maxArrayUnfold {
 			tr.note("large array allocation: contents left unconstrained")
@@ -261,6 +350,7 @@ func (tr *FnTrans) instr(st *BState, in ssa.Instruction) {
 			tr.store(st.heap, addr, et, tr.smt.zero(et))
 		}
 		tr.vals[x] = Val{T: addr, Ty: x.Type()}
+		tr.allocs = append(tr.allocs, x)
 	case *ssa.BinOp:
 		a, b := tr.val(x.X), tr.val(x.Y)
 		t := tr.binop(x.Op, a, b, x.Type(), st, x.Pos())
@@ -277,7 +367,16 @@ func (tr *FnTrans) instr(st *BState, in ssa.Instruction) {
 		tr.defers = append(tr.defers, x)
 	case *ssa.RunDefers:
 		for i := len(tr.defers) - 1; i >= 0; i-- {
-			tr.doCall(st, tr.defers[i])
+			d := tr.defers[i]
+			switch {
+			case d.Block() == x.Block() || d.Block().Dominates(x.Block()):
+				tr.doCall(st, d)
+			case tr.in[d.Block()] != nil:
+				// a defer statement that only some paths to this return executed: its effects may
+				// or may not happen; be conservative and forget the heap
+				st.heap = tr.smt.newRootHeap()
+				tr.note("conditionally executed defer: heap forgotten at function exit")
+			}
 		}
 	case *ssa.ChangeInterface:
 		v := tr.val(x.X)
@@ -319,19 +418,16 @@ func (tr *FnTrans) instr(st *BState, in ssa.Instruction) {
 		v := tr.val(x.X)
 		tr.vals[x] = Val{T: tr.makeIface(v, st.reach), Ty: x.Type()}
 	case *ssa.MakeClosure:
-		tr.allocID++
-		n := fmt.Sprintf("(loc %d)", tr.allocID)
+		n := tr.newLoc(x.Block())
 		tr.vals[x] = Val{T: n, Ty: x.Type()}
 		tr.closures[n] = x
 	case *ssa.MakeMap, *ssa.MakeChan:
-		tr.allocID++
-		tr.vals[x.(ssa.Value)] = Val{T: fmt.Sprintf("(loc %d)", tr.allocID), Ty: x.(ssa.Value).Type()}
+		tr.vals[x.(ssa.Value)] = Val{T: tr.newLoc(in.Block()), Ty: x.(ssa.Value).Type()}
 	case *ssa.MakeSlice:
 		l, c := tr.toIdx(tr.val(x.Len)), tr.toIdx(tr.val(x.Cap))
 		tr.safety("makelen", "make: negative or inconsistent length", st, and(tr.ivLe(tr.lit64(0), l), tr.ivLe(l, c)), x.Pos())
 		tr.assume(st.reach, tr.ivLe(c, tr.lit64(1<<48)), "make: runtime allocation limit")
-		tr.allocID++
-		tr.vals[x] = Val{T: tr.smt.define(x.Name(), "Slice", fmt.Sprintf("(mkslice (loc %d) %s %s %s)", tr.allocID, tr.lit64(0), l, c)), Ty: x.Type()}
+		tr.vals[x] = Val{T: tr.smt.define(x.Name(), "Slice", fmt.Sprintf("(mkslice %s %s %s %s)", tr.newLoc(x.Block()), tr.lit64(0), l, c)), Ty: x.Type()}
 	case *ssa.MapUpdate:
 		m := tr.val(x.Map)
 		tr.safety("nil", "assignment to entry in nil map", st, fmt.Sprintf("(not (= %s nil))", m.T), x.Pos())
@@ -620,9 +716,6 @@ func (tr *FnTrans) backEdges(st *BState, in ssa.Instruction) {
 		}
 		ord := tr.loopOf[h]
 		spec := tr.loopSpec(ord)
-		if spec == nil || len(spec.Invariants) == 0 {
-			continue
-		}
 		predIdx := -1
 		for i, p := range h.Preds {
 			if p == b {
@@ -630,6 +723,12 @@ func (tr *FnTrans) backEdges(st *BState, in ssa.Instruction) {
 			}
 		}
 		cond := tr.smt.define(fmt.Sprintf("back_%d_%d", b.Index, h.Index), "Bool", tr.edgeCondFor(h, predIdx))
+		for k, phi := range tr.autoPhis[h] {
+			tr.oblige("inv-step", fmt.Sprintf("loop %d: range index stays within bounds", ord), cond, tr.autoInvs[h](tr.val(phi.Edges[predIdx]).T, k), in.Pos())
+		}
+		if spec == nil || len(spec.Invariants) == 0 {
+			continue
+		}
 		over := map[string]Val{}
 		for _, hi := range h.Instrs {
 			phi, ok := hi.(*ssa.Phi)
@@ -643,7 +742,7 @@ func (tr *FnTrans) backEdges(st *BState, in ssa.Instruction) {
 		env := tr.envAt(b, len(b.Instrs), st.heap, tr.entryHeap)
 		env.override = over
 		for _, inv := range spec.Invariants {
-			tr.oblige("inv-step", fmt.Sprintf("loop %d invariant preserved: %s", ord, inv.Src), cond, env.evalBool(inv.E), in.Pos())
+			tr.oblige("inv-step", fmt.Sprintf("loop %d invariant preserved: %s", ord, inv.Src), cond, env.evalGoal(inv.E), in.Pos())
 		}
 	}
 }
@@ -669,7 +768,7 @@ func (tr *FnTrans) doReturn(st *BState, r *ssa.Return) {
 		if lbl == "" {
 			lbl = fmt.Sprint(i + 1)
 		}
-		o := tr.oblige(fmt.Sprintf("ensures[%s]@return", lbl), e.Src, st.reach, env.evalBool(e.E), r.Pos())
+		o := tr.oblige(fmt.Sprintf("ensures[%s]@return", lbl), e.Src, st.reach, env.evalGoal(e.E), r.Pos())
 		o.Name = fmt.Sprintf("%s/ensures[%s]@return%d", tr.name, lbl, k)
 	}
 	if !tr.c.Dead[fmt.Sprintf("return#%d", k)] {
@@ -775,6 +874,62 @@ func (tr *FnTrans) resolveSites() {
 	}
 }
 
+// localType finds the type of a source-level local variable anywhere in the function.
+func (tr *FnTrans) localType(name string) (types.Type, bool) {
+	if tr.localTypes == nil {
+		tr.localTypes = map[string]types.Type{}
+		for _, b := range tr.fn.Blocks {
+			for _, in := range b.Instrs {
+				if d, ok := in.(*ssa.DebugRef); ok {
+					if obj, ok := d.Object().(*types.Var); ok && obj != nil && !obj.IsField() && (obj.Pkg() == nil || obj.Parent() != obj.Pkg().Scope()) {
+						if _, seen := tr.localTypes[obj.Name()]; !seen {
+							tr.localTypes[obj.Name()] = obj.Type()
+						}
+					}
+				}
+			}
+		}
+	}
+	t, ok := tr.localTypes[name]
+	return t, ok
+}
+
+func (tr *FnTrans) ghostLocal(name string, t types.Type) Val {
+	if v, ok := tr.ghostLocals[name]; ok {
+		return v
+	}
+	v := tr.introduce("ghostlocal_"+name, t, "false", "local not yet in scope")
+	if tr.ghostLocals == nil {
+		tr.ghostLocals = map[string]Val{}
+	}
+	tr.ghostLocals[name] = v
+	return v
+}
+
+// assumeHyp assumes a contract formula; quantified ones are remembered so that they can be
+// instantiated again with index terms that appear later (loop counters, skolem constants).
+func (tr *FnTrans) assumeHyp(env *Env, x *Expr, guard, origin string) string {
+	t := env.evalHyp(x)
+	tr.assume(guard, t, origin)
+	if hasQuant(x) {
+		tr.qhyps = append(tr.qhyps, qhyp{env, x, guard, origin})
+	}
+	return t
+}
+
+func (tr *FnTrans) reinstantiate() {
+	if len(tr.idxCands) == tr.lastReinst {
+		return
+	}
+	tr.lastReinst = len(tr.idxCands)
+	for _, q := range tr.qhyps {
+		tr.assume(q.guard, q.env.evalHyp(q.x), q.origin+" (instantiated again)")
+	}
+	for _, f := range tr.reinst {
+		f()
+	}
+}
+
 // siteFor returns the call-site record for an alias; for a site that has not been translated yet
 // (it cannot lie on a path to the current point) a ghost record with called=false is returned.
 func (tr *FnTrans) siteFor(alias string) *Site {
@@ -861,6 +1016,11 @@ func (tr *FnTrans) callEffects(ci ssa.CallInstruction) (map[string]bool, bool) {
 	if isProtoGetter(cc) != nil {
 		return mod, false
 	}
+	if spec := tr.eng.lookupSpec(name, cc); spec != nil && spec.ModSet && len(spec.Modifies) > 0 {
+		if ok := tr.modifiesCellSorts(spec, cc, mod); ok {
+			return mod, false
+		}
+	}
 	all := false
 	seen := map[types.Type]bool{}
 	for _, a := range cc.Args {
@@ -914,7 +1074,7 @@ func (tr *FnTrans) doCall(st *BState, ci ssa.CallInstruction) Val {
 					if lbl == "" {
 						lbl = alias
 					}
-					o := tr.oblige("site-assert["+lbl+"]", "at "+alias+": "+sa.C.Src, st.reach, env.evalBool(sa.C.E), ci.Pos())
+					o := tr.oblige("site-assert["+lbl+"]", "at "+alias+": "+sa.C.Src, st.reach, env.evalGoal(sa.C.E), ci.Pos())
 					_ = o
 				}
 			}
@@ -930,6 +1090,13 @@ func (tr *FnTrans) doCall(st *BState, ci ssa.CallInstruction) Val {
 		return res
 	}
 
+	// the callee may allocate: the allocation counter grows
+	acBefore := st.ac
+	{
+		nac := tr.smt.fresh("ac_call", "Int")
+		tr.assume(st.reach, fmt.Sprintf("(>= %s %s)", nac, st.ac), "allocation counter only grows")
+		st.ac = nac
+	}
 	// results
 	var results []Val
 	for i := 0; i < sig.Results().Len(); i++ {
@@ -939,7 +1106,12 @@ func (tr *FnTrans) doCall(st *BState, ci ssa.CallInstruction) Val {
 
 	// heap effect
 	pure := tr.eng.isPureCallee(name) || (spec != nil && (spec.Pure || (spec.ModSet && len(spec.Modifies) == 0)))
-	if !pure {
+	if !pure && spec != nil && spec.ModSet && len(spec.Modifies) > 0 {
+		tr.applyModifies(st, site, spec, cc)
+		if st.heap.root {
+			tr.assumeStable(st, site.Before, st.heap)
+		}
+	} else if !pure {
 		mod, all := tr.callEffects(ci)
 		if all {
 			st.heap = tr.smt.newRootHeap()
@@ -954,11 +1126,25 @@ func (tr *FnTrans) doCall(st *BState, ci ssa.CallInstruction) Val {
 			}
 		}
 	}
+	if !pure {
+		tr.assumeStable(st, site.Before, st.heap)
+		tr.preserveLocals(st, site.Before, st.heap)
+	}
 	site.After = st.heap
 	st.heap = st.heap.child()
 
 	if spec != nil {
 		tr.applySpec(st, site, spec, cc)
+		// results the contract declares fresh were allocated during the call
+		for i, rn := range site.ResNames {
+			for _, f := range spec.Fresh {
+				if f == rn || f == fmt.Sprintf("result%d", i) {
+					if _, isPtr := results[i].Ty.Underlying().(*types.Pointer); isPtr {
+						tr.assume(st.reach, fmt.Sprintf("(or (= %s nil) (>= (rootloc %s) %s))", results[i].T, results[i].T, acBefore), "fresh result of "+name)
+					}
+				}
+			}
+		}
 	} else {
 		tr.abstracted[name]++
 	}
@@ -972,7 +1158,7 @@ func (tr *FnTrans) doCall(st *BState, ci ssa.CallInstruction) Val {
 					if lbl == "" {
 						lbl = alias
 					}
-					tr.oblige("site-assert["+lbl+"]", "after "+alias+": "+sa.C.Src, st.reach, env.evalBool(sa.C.E), ci.Pos())
+					tr.oblige("site-assert["+lbl+"]", "after "+alias+": "+sa.C.Src, st.reach, env.evalGoal(sa.C.E), ci.Pos())
 				}
 			}
 		}
@@ -994,41 +1180,275 @@ func valueName(ci ssa.CallInstruction) string {
 	return "call"
 }
 
-// applySpec checks the callee's requires and assumes its ensures at a call site.
-func (tr *FnTrans) applySpec(st *BState, site *Site, spec *Contract, cc *ssa.CallCommon) {
-	sig := cc.Signature()
+// calleeEnv builds the environment in which a callee's contract is evaluated at a call site.
+func (tr *FnTrans) calleeEnv(site *Site, spec *Contract, cc *ssa.CallCommon) *Env {
 	env := &Env{tr: tr, heap: site.After, oldHeap: site.Before, vars: map[string]Val{}, quiet: true}
 	if fn, ok := cc.Value.(*ssa.Function); ok && fn.Pkg != nil {
 		env.pkg = fn.Pkg.Pkg
 	} else if cc.IsInvoke() && cc.Method.Pkg() != nil {
 		env.pkg = cc.Method.Pkg()
 	}
-	env.imports = tr.eng.importsOf(spec.File, env.pkg)
 	for i, n := range site.ParamNames {
 		if i < len(site.Args) {
 			env.vars[n] = site.Args[i]
 		}
+	}
+	for i := range site.Args {
 		env.vars[fmt.Sprintf("arg%d", i)] = site.Args[i]
 	}
 	if site.Recv != nil {
 		env.vars["recv"] = *site.Recv
 	}
+	return env
+}
+
+// modifiesCellSorts derives, from types alone, the cell sorts named by a modifies clause of the
+// shape param.f.g (used when a loop containing the call is havocked before the call is translated).
+func (tr *FnTrans) modifiesCellSorts(spec *Contract, cc *ssa.CallCommon, out map[string]bool) bool {
+	sig := cc.Signature()
+	params, _ := sigNames(sig, cc.IsInvoke())
+	ptypes := []types.Type{}
+	if sig.Recv() != nil && !cc.IsInvoke() {
+		ptypes = append(ptypes, sig.Recv().Type())
+	}
+	for i := 0; i < sig.Params().Len(); i++ {
+		ptypes = append(ptypes, sig.Params().At(i).Type())
+	}
+	var typeOf func(x *Expr) types.Type
+	typeOf = func(x *Expr) types.Type {
+		switch x.Op {
+		case "id":
+			for i, n := range params {
+				if n == x.S && i < len(ptypes) {
+					return ptypes[i]
+				}
+			}
+		case "sel":
+			bt := typeOf(x.A[0])
+			if bt == nil {
+				return nil
+			}
+			if pt, ok := bt.Underlying().(*types.Pointer); ok {
+				bt = pt.Elem()
+			}
+			_, ft := findField(bt, x.S)
+			return ft
+		case "un":
+			if x.S == "*" {
+				if bt := typeOf(x.A[0]); bt != nil {
+					if pt, ok := bt.Underlying().(*types.Pointer); ok {
+						return pt.Elem()
+					}
+				}
+			}
+		}
+		return nil
+	}
+	for _, m := range spec.Modifies {
+		if m.E.Op == "call" && m.E.S == "pointee" && len(m.E.A) == 1 && m.E.A[0].Op == "id" {
+			pv, pt := pointeeArg(cc, m.E.A[0].S)
+			if pt == nil {
+				return false
+			}
+			if al, ok := pv.(*ssa.Alloc); ok && tr.curLoopBlocks != nil && tr.curLoopBlocks[al.Block()] {
+				continue // a variable allocated inside the loop: nothing to havoc at the loop head
+			}
+			all := false
+			tr.reachableCells(pt, out, map[types.Type]bool{}, &all, false)
+			if all {
+				return false
+			}
+			continue
+		}
+		t := typeOf(m.E)
+		if t == nil {
+			return false
+		}
+		tr.cellSorts(t, out)
+	}
+	return true
+}
+
+// applyModifies havocs exactly the cells named by the callee's modifies clause.
+func (tr *FnTrans) applyModifies(st *BState, site *Site, spec *Contract, cc *ssa.CallCommon) {
+	env := tr.calleeEnv(site, spec, cc)
+	env.heap = site.Before
+	for _, m := range spec.Modifies {
+		if m.E.Op == "call" && m.E.S == "pointee" && len(m.E.A) == 1 && m.E.A[0].Op == "id" {
+			tr.havocPointee(st, site, cc, m.E.A[0].S)
+			continue
+		}
+		addr, t, ok := env.addrOf(m.E)
+		if !ok {
+			panic(unsupported(fmt.Sprintf("modifies clause %q of %s is not an addressable location", m.Src, site.Callee)))
+		}
+		v := tr.introduce("mod_"+valueName(site.Instr), t, st.reach, "modified by "+site.Callee)
+		tr.store(st.heap, addr, t, v.T)
+	}
+}
+
+// pointeeArg finds the static pointer type boxed into an interface argument (or the pointer
+// argument itself) named by a `modifies pointee(name)` clause.
+func pointeeArg(cc *ssa.CallCommon, name string) (ssa.Value, types.Type) {
+	params, _ := sigNames(cc.Signature(), cc.IsInvoke())
+	for i, n := range params {
+		if n != name || i >= len(cc.Args) {
+			continue
+		}
+		a := cc.Args[i]
+		if mi, ok := a.(*ssa.MakeInterface); ok {
+			a = mi.X
+		}
+		return a, a.Type()
+	}
+	return nil, nil
+}
+
+// havocPointee havocs (by cell sort) everything reachable from the pointer passed as the named argument.
+func (tr *FnTrans) havocPointee(st *BState, site *Site, cc *ssa.CallCommon, name string) {
+	pv, t := pointeeArg(cc, name)
+	if t == nil {
+		st.heap = tr.smt.newRootHeap()
+		return
+	}
+	if al, ok := pv.(*ssa.Alloc); ok {
+		// the destination is a local variable: only its own cells change (objects the callee
+		// allocates and links from it are new memory)
+		if av, ok := tr.vals[al]; ok {
+			et := al.Type().Underlying().(*types.Pointer).Elem()
+			v := tr.introduce("dec_"+al.Comment, et, st.reach, "written by "+site.Callee)
+			tr.store(st.heap, av.T, et, v.T)
+			return
+		}
+	}
+	mod := map[string]bool{}
+	all := false
+	tr.reachableCells(t, mod, map[types.Type]bool{}, &all, false)
+	if all {
+		st.heap = tr.smt.newRootHeap()
+		return
+	}
+	var ks []string
+	for k := range mod {
+		ks = append(ks, k)
+	}
+	sort.Strings(ks)
+	for _, k := range ks {
+		st.heap.set(k, tr.smt.fresh("Hdec_"+heapKey(k), st.heap.arraySort(k)))
+	}
+}
+
+// applySpec checks the callee's requires and assumes its ensures at a call site.
+func (tr *FnTrans) applySpec(st *BState, site *Site, spec *Contract, cc *ssa.CallCommon) {
+	sig := cc.Signature()
+	env := tr.calleeEnv(site, spec, cc)
 	// requires, evaluated in the pre-state
 	pre := *env
 	pre.heap = site.Before
 	for _, r := range spec.Requires {
-		tr.oblige("call-pre", fmt.Sprintf("precondition of %s: %s", site.Callee, r.Src), st.reach, pre.evalBool(r.E), site.Pos)
+		tr.oblige("call-pre", fmt.Sprintf("precondition of %s: %s", site.Callee, r.Src), st.reach, pre.evalGoal(r.E), site.Pos)
 	}
 	env.results = site.Results
 	env.resNames = site.ResNames
 	env.atReturn = true
 	_ = sig
+	internal := map[string]bool{}
+	for _, sd := range spec.Sites {
+		internal[sd.Alias] = true
+	}
+	for _, l := range spec.Lets {
+		if mentions(l.C.E, internal) {
+			internal[l.Name] = true
+		}
+	}
 	for _, e := range spec.Ensures {
-		tr.assume(st.reach, env.evalBool(e.E), "ensures of "+site.Callee+": "+e.Src)
+		if mentions(e.E, internal) {
+			continue // speaks about the callee's own call sites: not visible to callers
+		}
+		tr.assumeHyp(env, e.E, st.reach, "ensures of "+site.Callee+": "+e.Src)
 	}
 	if spec.Assumed || spec.NoBody {
 		tr.usedSpecs["assumed contract: "+site.Callee] = true
 	}
+}
+
+// assumeStable re-establishes, after a havoc, the cells of the structs declared stable.
+func (tr *FnTrans) assumeStable(st *BState, before, after *Heap) {
+	if tr.c == nil {
+		return
+	}
+	for _, sv := range tr.stableVals {
+		pt, ok := sv.Ty.Underlying().(*types.Pointer)
+		if !ok {
+			continue
+		}
+		tr.stableCells(st, sv.T, pt.Elem(), before, after)
+	}
+}
+
+// preserveLocals re-establishes, after a havoc caused by a callee, the cells of local variables
+// whose address never escapes: no callee can write them.
+func (tr *FnTrans) preserveLocals(st *BState, before, after *Heap) {
+	for _, al := range tr.allocs {
+		if tr.escapeOf(al) {
+			continue
+		}
+		v, ok := tr.vals[al]
+		if !ok {
+			continue
+		}
+		et := al.Type().Underlying().(*types.Pointer).Elem()
+		if at, isArr := et.Underlying().(*types.Array); isArr && at.Len() > maxArrayUnfold {
+			continue
+		}
+		tr.stableCells(st, v.T, et, before, after)
+	}
+}
+
+func (tr *FnTrans) escapeOf(al *ssa.Alloc) bool {
+	if e, ok := tr.escCache[al]; ok {
+		return e
+	}
+	e := escapes(al)
+	tr.escCache[al] = e
+	return e
+}
+
+func (tr *FnTrans) stableCells(st *BState, addr string, t types.Type, before, after *Heap) {
+	switch u := t.Underlying().(type) {
+	case *types.Struct:
+		for i := 0; i < u.NumFields(); i++ {
+			tr.stableCells(st, tr.fldAddr(addr, u, i), u.Field(i).Type(), before, after)
+		}
+	case *types.Array:
+		if u.Len() <= maxArrayUnfold {
+			for i := int64(0); i < u.Len(); i++ {
+				tr.stableCells(st, tr.elemAddr(addr, tr.lit64(i)), u.Elem(), before, after)
+			}
+		}
+	default:
+		srt := tr.smt.sortOf(t)
+		b, a := before.lookup(srt), after.lookup(srt)
+		if a != b {
+			tr.assume(st.reach, fmt.Sprintf("(= (select %s %s) (select %s %s))", a, addr, b, addr), "stable struct")
+		}
+	}
+}
+
+// mentions reports whether an expression uses one of the given identifiers.
+func mentions(x *Expr, ids map[string]bool) bool {
+	if x == nil {
+		return false
+	}
+	if x.Op == "id" && ids[x.S] {
+		return true
+	}
+	for _, a := range x.A {
+		if mentions(a, ids) {
+			return true
+		}
+	}
+	return false
 }
 
 // ---------------------------------------------------------------- builtins
@@ -1109,41 +1529,145 @@ func (tr *FnTrans) builtin(st *BState, ci ssa.CallInstruction, b *ssa.Builtin) V
 	panic(unsupported("builtin " + b.Name()))
 }
 
-// copyCells models copy(dst, src) of n elements: the element heaps are updated so that
-// dst[i] == old src[i] for 0 <= i < n and every other cell is unchanged.
-func (tr *FnTrans) copyCells(st *BState, et types.Type, dst, src Val, n string) {
-	if isStringType(src.Ty) {
-		cs := tr.smt.sortOf(et)
-		st.heap.set(cs, tr.smt.fresh("Hcopy_"+heapKey(cs), st.heap.arraySort(cs)))
-		return
+// cellPath describes one scalar cell inside an element of a slice: the field ids from the element
+// address outwards, and the cell's sort.
+type cellPath struct {
+	fields []int
+	sort   string
+}
+
+// elemCellPaths lists the scalar cells of an element type; ok=false when the element contains
+// arrays (not supported by the content axioms).
+func (tr *FnTrans) elemCellPaths(t types.Type, prefix []int, out *[]cellPath) bool {
+	switch u := t.Underlying().(type) {
+	case *types.Struct:
+		for i := 0; i < u.NumFields(); i++ {
+			if !tr.elemCellPaths(u.Field(i).Type(), append(append([]int{}, prefix...), tr.smt.fieldID(u, i)), out) {
+				return false
+			}
+		}
+		return true
+	case *types.Array:
+		return false
 	}
-	cells := map[string]bool{}
-	tr.cellSorts(et, cells)
-	if len(cells) != 1 {
-		// element type with several cell sorts: havoc them (rare: slices of structs)
+	*out = append(*out, cellPath{prefix, tr.smt.sortOf(t)})
+	return true
+}
+
+func pathAddr(elemAddr string, fields []int) string {
+	a := elemAddr
+	for _, f := range fields {
+		a = fmt.Sprintf("(fld %s %d)", a, f)
+	}
+	return a
+}
+
+// pathMatch inverts pathAddr: condition under which r has the shape of this path, and the term
+// for the element address inside r.
+func pathMatch(r string, fields []int) (string, string) {
+	var conds []string
+	cur := r
+	for i := len(fields) - 1; i >= 0; i-- {
+		conds = append(conds, fmt.Sprintf("((_ is fld) %s)", cur), fmt.Sprintf("(= (fidx %s) %d)", cur, fields[i]))
+		cur = fmt.Sprintf("(fbase %s)", cur)
+	}
+	conds = append(conds, fmt.Sprintf("((_ is elem) %s)", cur))
+	return and(conds...), cur
+}
+
+// moveCells states that n elements starting at (dBase,dOff) now hold what the n elements starting at
+// (sBase,sOff) held before, for every scalar cell of the element type, and that nothing else changed
+// unless it lies in an additional havocked region (extraBase: all elements of that base may change).
+func (tr *FnTrans) moveCells(st *BState, et types.Type, moves []cellMove, tag string) bool {
+	var paths []cellPath
+	if !tr.elemCellPaths(et, nil, &paths) {
+		return false
+	}
+	bySort := map[string][]cellPath{}
+	var sorts []string
+	for _, p := range paths {
+		if _, ok := bySort[p.sort]; !ok {
+			sorts = append(sorts, p.sort)
+		}
+		bySort[p.sort] = append(bySort[p.sort], p)
+	}
+	sort.Strings(sorts)
+	is := tr.smt.intSortW(64)
+	for _, cs := range sorts {
+		old := st.heap.lookup(cs)
+		nw := tr.smt.fresh("H"+tag+"_"+heapKey(cs), st.heap.arraySort(cs))
+		st.heap.set(cs, nw)
+		var changed []string
+		for _, p := range bySort[cs] {
+			for mi, mv := range moves {
+				q := fmt.Sprintf("mi%d!", mi)
+				inRange := and(tr.ivLe(tr.lit64(0), q), tr.ivLt(q, mv.n))
+				dst := pathAddr(tr.elemAddr(mv.dBase, tr.ivAdd(mv.dOff, q)), p.fields)
+				src := pathAddr(tr.elemAddr(mv.sBase, tr.ivAdd(mv.sOff, q)), p.fields)
+				fact := fmt.Sprintf("(forall ((%s %s)) (=> %s (= (select %s %s) (select %s %s))))", q, is, inRange, nw, dst, old, src)
+				tr.assume(and(st.reach, mv.guard), fact, tag+": contents")
+				// explicit instances for the index terms known so far, and again whenever new ones appear
+				done := map[string]bool{}
+				guard := and(st.reach, mv.guard)
+				mv, p := mv, p
+				inst := func() {
+					for _, c := range tr.candidates(is) {
+						// the element index is either c itself or c taken relative to the destination offset
+						for _, idx := range []string{c, tr.ivSub(c, tr.ivSub(mv.dOff, mv.sOff))} {
+							if done[idx] {
+								continue
+							}
+							done[idx] = true
+							inR := and(tr.ivLe(tr.lit64(0), idx), tr.ivLt(idx, mv.n))
+							d := pathAddr(tr.elemAddr(mv.dBase, tr.ivAdd(mv.dOff, idx)), p.fields)
+							sa := pathAddr(tr.elemAddr(mv.sBase, tr.ivAdd(mv.sOff, idx)), p.fields)
+							tr.assume(guard, fmt.Sprintf("(=> %s (= (select %s %s) (select %s %s)))", inR, nw, d, old, sa), tag+": contents instance")
+						}
+					}
+				}
+				inst()
+				tr.reinst = append(tr.reinst, inst)
+				m, el := pathMatch("r!", p.fields)
+				changed = append(changed, and(mv.guard, m, fmt.Sprintf("(= (ebase %s) %s)", el, mv.dBase), tr.ivLe(mv.dOff, fmt.Sprintf("(eidx %s)", el)), tr.ivLt(fmt.Sprintf("(eidx %s)", el), tr.ivAdd(mv.dOff, mv.n))))
+			}
+		}
+		frame := fmt.Sprintf("(forall ((r! Ref)) (=> (not %s) (= (select %s r!) (select %s r!))))", or(changed...), nw, old)
+		tr.assume(st.reach, frame, tag+": frame")
+		tr.frames = append(tr.frames, frameFact{guard: st.reach, old: old, nw: nw, changedOf: func(r string) string {
+			return strings.ReplaceAll(or(changed...), "r!", r)
+		}})
+	}
+	return true
+}
+
+type cellMove struct {
+	guard                        string
+	dBase, dOff, sBase, sOff, n string
+}
+
+type frameFact struct {
+	guard, old, nw string
+	changedOf      func(r string) string
+}
+
+// copyCells models copy(dst, src) of n elements.
+func (tr *FnTrans) copyCells(st *BState, et types.Type, dst, src Val, n string) {
+	havocAll := func(why string) {
+		cells := map[string]bool{}
+		tr.cellSorts(et, cells)
 		for cs := range cells {
 			st.heap.set(cs, tr.smt.fresh("Hcopy_"+heapKey(cs), st.heap.arraySort(cs)))
 		}
-		tr.note("copy of composite elements: element cells havocked")
+		tr.note("copy: element cells havocked (%s)", why)
+	}
+	if isStringType(src.Ty) {
+		havocAll("string source")
 		return
 	}
-	cs := tr.smt.sortOf(et)
-	old := st.heap.lookup(cs)
-	nw := tr.smt.fresh("Hcopy_"+heapKey(cs), st.heap.arraySort(cs))
-	st.heap.set(cs, nw)
-	tr.copyFacts = append(tr.copyFacts, copyFact{guard: st.reach, old: old, nw: nw, dst: dst.T, src: src.T, n: n, sort: cs})
-	// frame + content axioms are instantiated on demand (see instantiateCopies); also give the
-	// quantified form, which z3 handles well.
-	i := "ci!"
-	is := tr.smt.intSortW(64)
-	inRange := and(tr.ivLe(tr.lit64(0), i), tr.ivLt(i, n))
-	content := fmt.Sprintf("(forall ((%s %s)) (=> %s (= (select %s (elem (sbase %s) %s)) (select %s (elem (sbase %s) %s)))))",
-		i, is, inRange, nw, dst.T, tr.ivAdd(fmt.Sprintf("(soff %s)", dst.T), i), old, src.T, tr.ivAdd(fmt.Sprintf("(soff %s)", src.T), i))
-	dOff := fmt.Sprintf("(soff %s)", dst.T)
-	frame := fmt.Sprintf("(forall ((r! Ref)) (=> (not (and ((_ is elem) r!) (= (ebase r!) (sbase %s)) %s %s)) (= (select %s r!) (select %s r!))))",
-		dst.T, tr.ivLe(dOff, "(eidx r!)"), tr.ivLt("(eidx r!)", tr.ivAdd(dOff, n)), nw, old)
-	tr.assume(st.reach, content, "copy: contents")
-	tr.assume(st.reach, frame, "copy: frame")
+	mv := cellMove{guard: "true", dBase: fmt.Sprintf("(sbase %s)", dst.T), dOff: fmt.Sprintf("(soff %s)", dst.T), sBase: fmt.Sprintf("(sbase %s)", src.T), sOff: fmt.Sprintf("(soff %s)", src.T), n: n}
+	if !tr.moveCells(st, et, []cellMove{mv}, "copy") {
+		havocAll("array-valued elements")
+	}
 }
 
 type copyFact struct {
@@ -1161,44 +1685,113 @@ func (tr *FnTrans) appendOp(st *BState, ci ssa.CallInstruction, args []Val) Val 
 	}
 	oldLen := fmt.Sprintf("(slen %s)", s.T)
 	newLen := tr.smt.define("applen", tr.smt.intSortW(64), tr.ivAdd(oldLen, addLen))
-	tr.allocID++
-	fits := tr.ivLe(newLen, fmt.Sprintf("(scap %s)", s.T))
-	nbase := fmt.Sprintf("(loc %d)", tr.allocID)
+	fits := tr.smt.define("appfits", "Bool", tr.ivLe(newLen, fmt.Sprintf("(scap %s)", s.T)))
+	nbase := tr.newLoc(ci.Block())
 	ncap := tr.smt.fresh("appcap", tr.smt.intSortW(64))
 	res := tr.smt.define(valueName(ci), "Slice", fmt.Sprintf("(ite %s (mkslice (sbase %s) (soff %s) %s (scap %s)) (mkslice %s %s %s %s))",
 		fits, s.T, s.T, newLen, s.T, nbase, tr.lit64(0), newLen, ncap))
 	tr.assume(st.reach, and(tr.ivLe(newLen, ncap), tr.ivLe(ncap, tr.lit64(1<<48))), "append: capacity")
 	tr.assume(st.reach, tr.ivLe(newLen, tr.lit64(1<<48)), "append: runtime allocation limit")
-	// contents: result[i] == old s[i] for i < len(s); result[len(s)+j] == extra[j]
-	cells := map[string]bool{}
-	tr.cellSorts(sl.Elem(), cells)
-	if len(cells) == 1 && !isStringType(extra.Ty) {
-		cs := tr.smt.sortOf(sl.Elem())
-		old := st.heap.lookup(cs)
-		nw := tr.smt.fresh("Happ_"+heapKey(cs), st.heap.arraySort(cs))
-		st.heap.set(cs, nw)
-		is := tr.smt.intSortW(64)
-		rb, ro := fmt.Sprintf("(sbase %s)", res), fmt.Sprintf("(soff %s)", res)
-		keep := fmt.Sprintf("(forall ((ai! %s)) (=> %s (= (select %s (elem %s %s)) (select %s (elem (sbase %s) %s)))))",
-			is, and(tr.ivLe(tr.lit64(0), "ai!"), tr.ivLt("ai!", oldLen)), nw, rb, tr.ivAdd(ro, "ai!"), old, s.T, tr.ivAdd(fmt.Sprintf("(soff %s)", s.T), "ai!"))
-		added := fmt.Sprintf("(forall ((aj! %s)) (=> %s (= (select %s (elem %s %s)) (select %s (elem (sbase %s) %s)))))",
-			is, and(tr.ivLe(tr.lit64(0), "aj!"), tr.ivLt("aj!", addLen)), nw, rb, tr.ivAdd(ro, tr.ivAdd(oldLen, "aj!")), old, extra.T, tr.ivAdd(fmt.Sprintf("(soff %s)", extra.T), "aj!"))
-		frame := fmt.Sprintf("(forall ((r! Ref)) (=> (not (and ((_ is elem) r!) (= (ebase r!) %s) %s %s)) (= (select %s r!) (select %s r!))))",
-			rb, tr.ivLe(tr.ivAdd(ro, oldLen), "(eidx r!)"), tr.ivLt("(eidx r!)", tr.ivAdd(ro, newLen)), nw, old)
-		// when reallocated, cells [0,oldLen) of the new base also change
-		frame2 := fmt.Sprintf("(forall ((r! Ref)) (=> (not (and ((_ is elem) r!) (= (ebase r!) %s))) (= (select %s r!) (select %s r!))))", rb, nw, old)
-		tr.assume(st.reach, keep, "append: prefix kept")
-		tr.assume(st.reach, added, "append: appended elements")
-		tr.assume(st.reach, fmt.Sprintf("(ite %s %s %s)", fits, frame, frame2), "append: frame")
-	} else {
+	rb, ro := fmt.Sprintf("(sbase %s)", res), fmt.Sprintf("(soff %s)", res)
+	havocAll := func(why string) {
+		cells := map[string]bool{}
+		tr.cellSorts(sl.Elem(), cells)
 		for cs := range cells {
 			st.heap.set(cs, tr.smt.fresh("Happ_"+heapKey(cs), st.heap.arraySort(cs)))
 		}
-		if len(cells) != 1 {
-			tr.note("append of composite elements: element cells havocked")
+		tr.note("append: element cells havocked (%s)", why)
+	}
+	if isStringType(extra.Ty) {
+		havocAll("string operand")
+		return Val{T: res, Ty: s.Ty}
+	}
+	var paths []cellPath
+	okPaths := tr.elemCellPaths(sl.Elem(), nil, &paths)
+	staticN := staticSliceLen(ci.Common().Args[1])
+	if okPaths && staticN >= 0 && staticN <= 8 {
+		// a statically known number of appended elements: explicit stores, no quantified frame.
+		// On reallocation the new array is fresh memory; its first len(s) cells are *defined* to
+		// hold the old elements (instantiated on demand), which is sound because nothing has
+		// read them before.
+		before := st.heap
+		st.heap = st.heap.child()
+		eb, eo := fmt.Sprintf("(sbase %s)", extra.T), fmt.Sprintf("(soff %s)", extra.T)
+		for j := 0; j < staticN; j++ {
+			jt := tr.lit64(int64(j))
+			for _, p := range paths {
+				src := fmt.Sprintf("(select %s %s)", before.lookup(p.sort), pathAddr(tr.elemAddr(eb, tr.ivAdd(eo, jt)), p.fields))
+				dst := pathAddr(tr.elemAddr(rb, tr.ivAdd(ro, tr.ivAdd(oldLen, jt))), p.fields)
+				cur := st.heap.lookup(p.sort)
+				st.heap.set(p.sort, tr.smt.define("Happ_"+heapKey(p.sort), st.heap.arraySort(p.sort), fmt.Sprintf("(store %s %s %s)", cur, dst, src)))
+			}
 		}
+		is := tr.smt.intSortW(64)
+		done := map[string]bool{}
+		guard := and(st.reach, tr.boolNot(fits))
+		sb, so := fmt.Sprintf("(sbase %s)", s.T), fmt.Sprintf("(soff %s)", s.T)
+		inst := func() {
+			for _, c := range tr.candidates(is) {
+				if done[c] {
+					continue
+				}
+				done[c] = true
+				inR := and(tr.ivLe(tr.lit64(0), c), tr.ivLt(c, oldLen))
+				for _, p := range paths {
+					h := before.lookup(p.sort)
+					tr.assume(guard, fmt.Sprintf("(=> %s (= (select %s %s) (select %s %s)))", inR, h, pathAddr(tr.elemAddr(nbase, c), p.fields), h, pathAddr(tr.elemAddr(sb, tr.ivAdd(so, c)), p.fields)), "append: reallocated prefix")
+				}
+			}
+		}
+		inst()
+		tr.reinst = append(tr.reinst, inst)
+		return Val{T: res, Ty: s.Ty}
+	}
+	moves := []cellMove{
+		// appended elements
+		{guard: "true", dBase: rb, dOff: tr.ivAdd(ro, oldLen), sBase: fmt.Sprintf("(sbase %s)", extra.T), sOff: fmt.Sprintf("(soff %s)", extra.T), n: addLen},
+		// on reallocation the old prefix is copied into the new array
+		{guard: tr.boolNot(fits), dBase: rb, dOff: ro, sBase: fmt.Sprintf("(sbase %s)", s.T), sOff: fmt.Sprintf("(soff %s)", s.T), n: oldLen},
+	}
+	if !tr.moveCells(st, sl.Elem(), moves, "app") {
+		havocAll("array-valued elements")
 	}
 	return Val{T: res, Ty: s.Ty}
 }
 
+// newLoc returns the address of a new object. Outside loops every allocation site gets a distinct
+// literal id; inside a loop the id is symbolic (distinct from all literal ids and from the other
+// objects of the same iteration), because objects of earlier iterations may still be referenced.
+func (tr *FnTrans) newLoc(b *ssa.BasicBlock) string {
+	st := tr.curState
+	if st == nil {
+		panic(unsupported("allocation outside a block"))
+	}
+	id := st.ac
+	st.ac = tr.smt.define("ac", "Int", fmt.Sprintf("(+ %s 1)", id))
+	return fmt.Sprintf("(loc %s)", id)
+}
+
+// staticSliceLen returns the statically known length of a slice value built as arr[:] from a
+// fixed-size array allocation (the shape of variadic arguments), or -1.
+func staticSliceLen(v ssa.Value) int {
+	sl, ok := v.(*ssa.Slice)
+	if !ok || sl.Low != nil || sl.High != nil || sl.Max != nil {
+		return -1
+	}
+	pt, ok := sl.X.Type().Underlying().(*types.Pointer)
+	if !ok {
+		return -1
+	}
+	at, ok := pt.Elem().Underlying().(*types.Array)
+	if !ok {
+		return -1
+	}
+	return int(at.Len())
+}
+
 func bigInt(v int64) *big.Int { return big.NewInt(v) }
+
+func isConst(v ssa.Value) bool {
+	_, ok := v.(*ssa.Const)
+	return ok
+}
